@@ -415,11 +415,14 @@ var c10SemanticFaults = []struct {
 }
 
 // c10InjectFaults mutates doc and returns the names of the faults applied.
-func c10InjectFaults(t *rapid.T, doc map[string]any, n int) []string {
+func c10InjectFaults(t *rapid.T, doc map[string]any, n int, onlySemantic bool) []string {
 	var names []string
 	for i := 0; i < n; i++ {
 		l := fmt.Sprintf("fault%d", i)
-		kind := rapid.IntRange(0, 9).Draw(t, l+".kind")
+		kind := 0
+		if !onlySemantic {
+			kind = rapid.IntRange(0, 9).Draw(t, l+".kind")
+		}
 		switch {
 		case kind <= 3: // semantic
 			f := c10SemanticFaults[rapid.IntRange(0, len(c10SemanticFaults)-1).Draw(t, l+".sem")]
@@ -731,13 +734,21 @@ func TestVerifC10Load(t *testing.T) {
 		defer os.RemoveAll(dir)
 
 		// ---- the document
+		// profile "one-broken-constraint": an otherwise acceptable document with exactly one documented constraint
+		// broken, delivered cleanly - the inputs that tell a complete Validate from one with a clause missing.
+		// profile "chaos": up to five faults of any kind, any delivery, arbitrary environment.
+		clean := rapid.IntRange(0, 9).Draw(t, "profile") < 3
 		doc := cgGenConfDoc(t, cgDocOpts{MaxGlobal: 8, MaxPerPath: 6, MaxPaths: 3})
-		nf := rapid.SampledFrom([]int{0, 0, 1, 1, 1, 2, 3, 5}).Draw(t, "nfaults")
-		nStruct := nf
-		if nf > 0 {
-			nStruct = rapid.IntRange(0, nf).Draw(t, "nstructural")
+		nf := 1
+		nStruct := 1
+		if !clean {
+			nf = rapid.SampledFrom([]int{0, 0, 1, 1, 1, 2, 3, 5}).Draw(t, "nfaults")
+			nStruct = nf
+			if nf > 0 {
+				nStruct = rapid.IntRange(0, nf).Draw(t, "nstructural")
+			}
 		}
-		faults := c10InjectFaults(t, doc, nStruct)
+		faults := c10InjectFaults(t, doc, nStruct, clean)
 		var text string
 		if rapid.IntRange(0, 4).Draw(t, "asJSON") == 0 {
 			b, jerr := json.Marshal(doc)
@@ -754,8 +765,19 @@ func TestVerifC10Load(t *testing.T) {
 		plain := []byte(text)
 
 		// ---- the delivery
-		env := c10GenEnv(t)
-		mode := rapid.SampledFrom([]string{"plain", "plain", "plain", "encrypted", "encrypted", "raw+key", "raw+key", "wrong-key", "legacy-key", "both-keys", "plain+key"}).Draw(t, "mode")
+		var env map[string]string
+		var mode string
+		if clean {
+			env = map[string]string{}
+			if rapid.IntRange(0, 3).Draw(t, "benign-env") == 0 {
+				env["MTX_LOGLEVEL"] = "debug"
+				env["MTX_PATHS_EXTRA_RECORD"] = "no"
+			}
+			mode = rapid.SampledFrom([]string{"plain", "plain", "encrypted", "legacy-key"}).Draw(t, "mode")
+		} else {
+			env = c10GenEnv(t)
+			mode = rapid.SampledFrom([]string{"plain", "plain", "plain", "encrypted", "encrypted", "raw+key", "raw+key", "wrong-key", "legacy-key", "both-keys", "plain+key"}).Draw(t, "mode")
+		}
 		key := rapid.OneOf(rapid.StringMatching(`[ -~]{0,40}`), rapid.SampledFrom([]string{"", "0123456789abcdef0123456789abcdef", "é"})).Draw(t, "key")
 		if strings.ContainsRune(key, 0) {
 			key = "k"
@@ -824,7 +846,12 @@ func TestVerifC10Load(t *testing.T) {
 		}
 
 		fpath := filepath.Join(dir, "mediamtx.yml")
-		invocation := rapid.SampledFrom([]string{"explicit", "explicit", "explicit", "default-list", "no-file", "missing-explicit"}).Draw(t, "invocation")
+		invocation := "explicit"
+		if clean {
+			invocation = rapid.SampledFrom([]string{"explicit", "default-list"}).Draw(t, "invocation")
+		} else {
+			invocation = rapid.SampledFrom([]string{"explicit", "explicit", "explicit", "default-list", "no-file", "missing-explicit"}).Draw(t, "invocation")
+		}
 		if invocation != "no-file" && invocation != "missing-explicit" {
 			if err = os.WriteFile(fpath, content, 0o600); err != nil {
 				t.Fatalf("VERIF-INCONCLUSIVE: %v", err)
@@ -848,7 +875,7 @@ func TestVerifC10Load(t *testing.T) {
 		}
 
 		pastYAML := invocation != "no-file" && invocation != "missing-explicit" && (mode == "plain" || mode == "encrypted" || mode == "legacy-key" || mode == "both-keys") && parses
-		classes := []string{"mode:" + mode, "invocation:" + invocation}
+		classes := []string{"mode:" + mode, "invocation:" + invocation, map[bool]string{true: "profile:one-broken-constraint", false: "profile:chaos"}[clean]}
 		if lerr == nil && panicked == nil {
 			classes = append(classes, "outcome:accepted")
 		} else {
